@@ -12,6 +12,8 @@ from sqlparse.utils import recurse, imt
 T_NUMERICAL = (T.Number, T.Number.Integer, T.Number.Float)
 T_STRING = (T.String, T.String.Single, T.String.Symbol)
 T_NAME = (T.Name, T.Name.Placeholder)
+T_DELIMITED = (sql.Parenthesis, sql.SquareBrackets, sql.Case, sql.If,
+               sql.For, sql.Begin)
 
 
 def _group_matching(tlist, cls):
@@ -462,6 +464,12 @@ def _group(tlist, cls, match,
 
     tidx_offset = 0
     pidx, prev_ = None, None
+    # The opening and closing token of a bracketed or block group delimit
+    # the group, they are never operands of a middle token.
+    delimiters = ()
+    if isinstance(tlist, T_DELIMITED) and tlist.tokens:
+        delimiters = (tlist.tokens[0],
+                      tlist.token_next_by(m=tlist.M_CLOSE)[1])
     for idx, token in enumerate(list(tlist)):
         tidx = idx - tidx_offset
         if tidx < 0:  # tidx shouldn't get negative
@@ -477,6 +485,10 @@ def _group(tlist, cls, match,
             nidx, next_ = tlist.token_next(tidx)
             if prev_ and valid_prev(prev_) and valid_next(next_):
                 from_idx, to_idx = post(tlist, pidx, tidx, nidx)
+                if (tlist.tokens[from_idx] in delimiters
+                        or tlist.tokens[to_idx] in delimiters):
+                    pidx, prev_ = tidx, token
+                    continue
                 grp = tlist.group_tokens(cls, from_idx, to_idx, extend=extend)
 
                 tidx_offset += to_idx - from_idx
